@@ -51,6 +51,9 @@ int main(int argc, char **argv) {
                 R.count(std::string("cases_") + m);
                 bin->run(R, m, idx / 2, isolate);
             }
+        } else if (prop == "C15" && R.args.mode == "truncate-only") {
+            R.count("cases_truncate");
+            bin->run(R, "truncate", idx, isolate);
         } else if (prop == "C15") {
             // one truncation case expands to (file length + 1) loads; text fuzz cases are single loads
             if (idx % 8 == 0) {
